@@ -80,6 +80,9 @@ def sh_vars(body):
         try:
             it.run(parse(line.strip()))
         except Unsupported as e:
+            if 'backquote' in str(e):
+                # an unescaped backquote in a data statement: bash and zsh run it as a command substitution, also inside double quotes
+                raise DecodeError('string constant in %r is not inert (backquote command substitution)' % line.strip())
             raise DecodeError('cannot read data statement %r: %s' % (line.strip(), e))
     out = {}
     for name, v in it.globals.items():
